@@ -6,6 +6,9 @@
 //   progs (d0 d1 …) <term>    the same with a scheduling oracle: before every leaf operation of whatever goroutine is
 //                             running one number is consumed; d>0 runs waiting goroutine number (d-1) mod #waiting to
 //                             completion right there (lean/Pcore/Model/Tls.lean `yield`)
+//   progi (d0 d1 …) <term>    leaf-level interleaving (lean/Pcore/Model/TlsSmall.lean `runI`): every goroutine parks before each leaf
+//                             operation and at its start; a controller resumes runnable goroutine number d mod #runnable
+//                             (ascending goroutine id; default 0), which runs up to its next leaf or its end
 // op (implementation only):
 //   @free <n> <term>          n groups run the program concurrently with no gates at all (real scheduling, all cores);
 //                             only the schedule-independent predicates are evaluated
@@ -217,6 +220,10 @@ type glog struct {
 
 type runner struct {
 	gated   bool
+	inter   bool // leaf-level interleaving: goroutines park before every leaf, a controller picks who goes on
+	ctl     chan ievt
+	waiting []*task              // inter: started by px.Fork, not yet released (ascending gid)
+	turns   map[int]chan struct{} // inter: parked goroutines
 	mu      sync.Mutex // guards everything below in free mode (in gated mode exactly one goroutine runs at a time)
 	sched   []int
 	pending []*task
@@ -229,6 +236,13 @@ type runner struct {
 	clock   int64
 	keys    []string
 	wg      sync.WaitGroup
+}
+
+// ievt is what a goroutine tells the controller when it stops running: it parked before a leaf, or it ended
+type ievt struct {
+	gid    int
+	parked bool
+	turn   chan struct{}
 }
 
 var errBoom = errors.New("boom")
@@ -445,8 +459,14 @@ func happensBefore(owner *ginfo, at int64, g *ginfo) bool {
 
 // ---- interpreter ---------------------------------------------------------------------------------------
 
-func (r *runner) yield() {
+func (r *runner) yield(g *ginfo) {
 	if !r.gated {
+		return
+	}
+	if r.inter {
+		turn := make(chan struct{})
+		r.ctl <- ievt{gid: g.gid, parked: true, turn: turn}
+		<-turn
 		return
 	}
 	if len(r.sched) == 0 {
@@ -502,7 +522,7 @@ func (r *runner) setTag(s *sctx, id int) {
 func (r *runner) run(n *node, g *ginfo, s *sctx) {
 	c := s.real
 	if leafOps[n.op] {
-		r.yield()
+		r.yield(g)
 	}
 	switch n.op {
 	case "obs":
@@ -721,7 +741,12 @@ func (r *runner) spawn(n *node, g *ginfo, s *sctx) {
 	doer := func(cf px.Context) {
 		defer r.wg.Done()
 		<-t.gate
-		defer close(t.done)
+		defer func() {
+			close(t.done)
+			if r.inter {
+				r.ctl <- ievt{gid: gid}
+			}
+		}()
 		r.goroutine(cg, func() {
 			r.bind(x, cf)
 			if cur, ok := current(); !ok || cur != cf {
@@ -749,7 +774,9 @@ func (r *runner) spawn(n *node, g *ginfo, s *sctx) {
 		px.Go(doer)
 	}
 	started = true
-	if r.gated {
+	if r.inter {
+		r.waiting = append(r.waiting, t)
+	} else if r.gated {
 		r.pending = append(r.pending, t)
 	}
 }
@@ -791,41 +818,49 @@ func newRunner(gated bool, sched []int, n *node) *runner {
 	return r
 }
 
+// rootBody is what the fresh goroutine 0 does: pcore.Do(term), then a look at what Do left behind
+func (r *runner) rootBody(n *node, g0 *ginfo) (curTag string, rootLeft bool) {
+	if rawCurrent() != nil {
+		r.fail("leaked-to-other-goroutine", "a fresh goroutine starts with a current context")
+	}
+	r.goroutine(g0, func() {
+		pcore.Do(func(c px.Context) {
+			x := r.newShadow(nil, g0)
+			r.bind(x, c)
+			if cur, ok := current(); !ok || cur != c {
+				r.fail("wrong-current", "inside Do the current context is %s", r.ctxName(rawCurrent()))
+			}
+			r.setTag(x, 1000)
+			defer r.audit(x, "end of Do")
+			r.seq([]*node{n}, g0, x)
+		})
+	})
+	curTag = "-"
+	if v := rawCurrent(); v != nil {
+		rootLeft = true
+		curTag = "?"
+		if c, ok := v.(px.Context); ok {
+			if tv, ok := c.Get(tagKey); ok {
+				if cl, ok := tv.(cell); ok {
+					curTag = strconv.Itoa(cl.val)
+				}
+			}
+		}
+		r.fail("not-restored", "after Do returned on a fresh goroutine its current context is still set (%s)", r.ctxName(v))
+	}
+	return
+}
+
 // root runs pcore.Do(term) on a fresh goroutine and joins everything; returns the trailer observations
 func (r *runner) root(n *node) (curTag string, rootLeft bool) {
+	if r.inter {
+		return r.rootInter(n)
+	}
 	done := make(chan struct{})
 	g0 := &ginfo{gid: 0}
 	go func() {
 		defer close(done)
-		if rawCurrent() != nil {
-			r.fail("leaked-to-other-goroutine", "a fresh goroutine starts with a current context")
-		}
-		r.goroutine(g0, func() {
-			pcore.Do(func(c px.Context) {
-				x := r.newShadow(nil, g0)
-				r.bind(x, c)
-				if cur, ok := current(); !ok || cur != c {
-					r.fail("wrong-current", "inside Do the current context is %s", r.ctxName(rawCurrent()))
-				}
-				r.setTag(x, 1000)
-				defer r.audit(x, "end of Do")
-				r.seq([]*node{n}, g0, x)
-			})
-		})
-		// what Do left behind on this goroutine
-		curTag = "-"
-		if v := rawCurrent(); v != nil {
-			rootLeft = true
-			curTag = "?"
-			if c, ok := v.(px.Context); ok {
-				if tv, ok := c.Get(tagKey); ok {
-					if cl, ok := tv.(cell); ok {
-						curTag = strconv.Itoa(cl.val)
-					}
-				}
-			}
-			r.fail("not-restored", "after Do returned on a fresh goroutine its current context is still set (%s)", r.ctxName(v))
-		}
+		curTag, rootLeft = r.rootBody(n, g0)
 	}()
 	<-done
 	for r.gated && len(r.pending) > 0 {
@@ -833,6 +868,58 @@ func (r *runner) root(n *node) (curTag string, rootLeft bool) {
 		r.pending = r.pending[1:]
 		close(t.gate)
 		<-t.done
+	}
+	r.wg.Wait()
+	return
+}
+
+// rootInter is the controller of the leaf-level interleaving: exactly one goroutine of the program runs at any time; when
+// it parks (before a leaf) or ends, the next choice picks who goes on among the goroutines that have not ended
+func (r *runner) rootInter(n *node) (curTag string, rootLeft bool) {
+	r.ctl = make(chan ievt)
+	r.turns = map[int]chan struct{}{}
+	g0 := &ginfo{gid: 0}
+	t0 := &task{gid: 0, gate: make(chan struct{}), done: make(chan struct{})}
+	go func() {
+		<-t0.gate
+		curTag, rootLeft = r.rootBody(n, g0)
+		r.ctl <- ievt{gid: 0}
+	}()
+	r.waiting = []*task{t0}
+	for {
+		ids := make([]int, 0, len(r.waiting)+len(r.turns))
+		for _, t := range r.waiting {
+			ids = append(ids, t.gid)
+		}
+		for gid := range r.turns {
+			ids = append(ids, gid)
+		}
+		if len(ids) == 0 {
+			break
+		}
+		sort.Ints(ids)
+		d := 0
+		if len(r.sched) > 0 {
+			d = r.sched[0]
+			r.sched = r.sched[1:]
+		}
+		gid := ids[d%len(ids)]
+		if turn, ok := r.turns[gid]; ok {
+			delete(r.turns, gid)
+			close(turn)
+		} else {
+			for i, t := range r.waiting {
+				if t.gid == gid {
+					r.waiting = append(append([]*task(nil), r.waiting[:i]...), r.waiting[i+1:]...)
+					close(t.gate)
+					break
+				}
+			}
+		}
+		ev := <-r.ctl
+		if ev.parked {
+			r.turns[ev.gid] = ev.turn
+		}
 	}
 	r.wg.Wait()
 	return
@@ -906,12 +993,12 @@ var gmpLock sync.Mutex
 
 func exec(c px.Context, op string, args []sx.Sexp) core.Result {
 	switch op {
-	case "prog", "progs":
+	case "prog", "progs", "progi":
 		var sched []int
 		var term sx.Sexp
 		if op == "prog" && len(args) == 1 {
 			term = args[0]
-		} else if op == "progs" && len(args) == 2 && args[0].IsList {
+		} else if (op == "progs" || op == "progi") && len(args) == 2 && args[0].IsList {
 			for _, d := range args[0].List {
 				n, ok := natOf(d)
 				if !ok {
@@ -933,12 +1020,16 @@ func exec(c px.Context, op string, args []sx.Sexp) core.Result {
 		defer runtime.GOMAXPROCS(old)
 		base := threadlocal.VerifLiveTables()
 		r := newRunner(true, sched, n)
+		r.inter = op == "progi"
 		curTag, _ := r.root(n)
 		live := waitLive(base, 100*time.Millisecond)
 		if live != 0 {
 			r.fail("tls-leak", "%d goroutine-local table(s) still allocated after Do returned on a fresh goroutine and every forked goroutine ended", live)
 		}
 		res := core.Result{Out: r.render(curTag, live), Pred: r.pred(), Tags: tagsOf(n, r, len(sched) > 0)}
+		if r.inter {
+			res.Tags = append(res.Tags, "interleaved")
+		}
 		n.walk(func(x *node) {
 			switch x.op {
 			case "doctx", "do", "doparent", "try", "doloader", "fork", "go":
@@ -1112,6 +1203,12 @@ func emitProg(g *core.G, n *node, scheds ...[]int) {
 	}
 }
 
+func emitInter(g *core.G, n *node, choices ...[]int) {
+	for _, s := range choices {
+		g.Emit("progi " + schedStr(s) + " " + n.sexp().String())
+	}
+}
+
 func wrap(f []*node) *node {
 	if len(f) == 1 {
 		return f[0]
@@ -1123,6 +1220,9 @@ var (
 	eager   = []int{1, 1, 1, 1, 1, 1, 1, 1, 1, 1, 1, 1}
 	delayed = []int{0, 1, 0, 1, 0, 1, 0, 1, 0, 1}
 	second  = []int{2, 0, 2, 0, 1, 1, 1, 1}
+	// leaf-level interleaving: strict alternation between the two oldest runnable goroutines / always the youngest
+	alternate = []int{0, 1, 0, 1, 0, 1, 0, 1, 0, 1, 0, 1, 0, 1, 0, 1}
+	youngest  = []int{0, 7, 7, 7, 7, 7, 7, 7, 7, 7, 7, 7, 7, 7, 7, 7}
 )
 
 type rgen struct {
@@ -1206,6 +1306,7 @@ func gen(g *core.G) {
 			t := number(wrap(f), &next)
 			if hasSpawn(t) {
 				emitProg(g, t, eager, delayed)
+				emitInter(g, t, alternate)
 			} else {
 				emitProg(g, t)
 			}
@@ -1237,6 +1338,22 @@ func gen(g *core.G) {
 			}
 		}
 		emitProg(g, t, ss...)
+		if hasSpawn(t) {
+			cs := [][]int{alternate}
+			for k := 0; k < 2; k++ {
+				c := make([]int, 8+x.r.Intn(40))
+				for j := range c {
+					c[j] = x.r.Intn(5)
+				}
+				cs = append(cs, c)
+			}
+			if i%3 == 0 {
+				cs = append(cs, youngest)
+			}
+			emitInter(g, t, cs...)
+		} else if i%5 == 0 {
+			emitInter(g, t, nil)
+		}
 	}
 	// 3. many goroutines under the real scheduler (implementation only)
 	for i := 0; i < 150*g.Scale; i++ {
